@@ -1118,7 +1118,17 @@ class Variable(CanBehaveLikeAVariable[T]):
         values = {self._id_: hv}
         for d in kwargs.values():
             values.update(d.bindings)
-        is_false = not bool(instance)
+        # the truthiness of a predicate / symbolic function result is a condition only where the call is evaluated as one
+        # (below a logical operator or as the condition of a query), not where it is a value: an operand of a comparison,
+        # an argument of another call, a selected expression
+        parent = self._eval_parent_
+        evaluated_as_value = (
+            self._predicate_type_
+            and parent is not None
+            and not isinstance(parent, LogicalOperator)
+            and not (isinstance(parent, QueryObjectDescriptor) and parent._child_ is self)
+        )
+        is_false = not evaluated_as_value and not bool(instance)
         if self._predicate_type_:
             # a predicate used as a condition: selectors (Alternative) read the truth of a branch from its node
             self._is_false_ = is_false
